@@ -515,7 +515,7 @@ def rule_cast(rep, F, aud):
             for st in bb["st"]:
                 if st[1] == "=" and st[3][0] == "cast" and st[3][1] == "IntToInt":
                     total += 1
-                    k = e3.cast_lossy(st[3][3], st[3][4])
+                    k = e3.cast_lossy(st[3][3], st[3][4]) if not e3.const_cast_exact(st[3][2], st[3][4]) else None
                     if k:
                         key = "%s|%s->%s" % (F.key(base), st[3][3], st[3][4])
                         seen[key] = seen.get(key, 0) + 1
